@@ -461,8 +461,10 @@ func ruleC06R2(r *Run) {
 		return
 	}
 	n := 0
+	builders := map[string]bool{} // the builder(s) written to
 	for _, cs := range p.callsTo(fn, "(*strings.Builder).WriteRune", "(*strings.Builder).WriteByte", "(*strings.Builder).WriteString", "(*strings.Builder).Write") {
 		n++
+		builders[p.expr(cs.Recv())] = true
 		arg := p.resolve(cs.Arg(0))
 		if c, ok := arg.(*ssa.Const); ok {
 			if v, ok := constInt(c); ok && safeAlphabetRune(rune(v)) {
@@ -509,7 +511,12 @@ func ruleC06R2(r *Run) {
 	// result: the builder's string, possibly + "_"
 	for _, ret := range returnsOf(fn) {
 		ex := p.expr(p.res(ret, 0))
-		ok := ex == "(*strings.Builder).String(&alloc(s))" || ex == "((*strings.Builder).String(&alloc(s)) + \"_\")"
+		ok := false
+		for b := range builders {
+			if ex == "(*strings.Builder).String("+b+")" || ex == "((*strings.Builder).String("+b+") + \"_\")" {
+				ok = len(builders) == 1
+			}
+		}
 		r.Check("kindaSafeFilename#result", ret.Pos(), ok, "returns the sanitised string (optionally with '_' appended)", "kindaSafeFilename returns "+ex)
 	}
 }
@@ -733,14 +740,19 @@ func ruleC06R5(r *Run) {
 		if p.same(ap.Common.Args[1], extractOr(gl.Value(), 0)) {
 			base := p.resolve(ap.Common.Args[0])
 			listDesc = p.expr(base)
-			if ph, ok := base.(*ssa.Phi); ok {
-				for _, e := range ph.Edges {
-					if sl, ok := p.resolve(e).(*ssa.Slice); ok {
-						vs := p.variadicArgs(sl)
-						if len(vs) == 1 && p.resolve(vs[0]) == ssa.Value(paramNamed(dc, "failfile")) {
-							okOrder = true
-						}
+			// the list the matches are appended to: on some path exactly [failfile] ({failfile} literal or append(nil, failfile))
+			for _, a := range p.alternatives(base, 0) {
+				var vs []ssa.Value
+				switch x := p.resolve(a.Val).(type) {
+				case *ssa.Slice:
+					vs = p.variadicArgs(x)
+				case *ssa.Call:
+					if p.calleeKey(x.Common()) == "builtin:append" && isNilConst(p.resolve(x.Common().Args[0])) {
+						vs = p.variadicArgs(x.Common().Args[1])
 					}
+				}
+				if len(vs) == 1 && vs[0] != nil && p.resolve(vs[0]) == ssa.Value(paramNamed(dc, "failfile")) {
+					okOrder = true
 				}
 			}
 		}
@@ -864,17 +876,7 @@ func ruleC17R1(r *Run) {
 			r.Fail(construct, cs.Instr.Pos(), "the error result of "+cs.Key+" is discarded: a malformed file is treated as valid data")
 			continue
 		}
-		var iff *ssa.If
-		pol := true
-		for _, ref := range *ev.Referrers() {
-			if bo, ok := ref.(*ssa.BinOp); ok && (bo.Op == token.NEQ || bo.Op == token.EQL) && bo.Referrers() != nil {
-				for _, r2 := range *bo.Referrers() {
-					if i2, ok := r2.(*ssa.If); ok {
-						iff, pol = i2, bo.Op == token.NEQ
-					}
-				}
-			}
-		}
+		iff, pol := p.errorTest(ev, 0) // also through the return of a helper to the test at its call site
 		if iff == nil {
 			r.Fail(construct, cs.Instr.Pos(), "the error result of "+cs.Key+" is never tested")
 			continue
@@ -970,7 +972,7 @@ func ruleC17R1(r *Run) {
 			r.Check("loadFailFile#index."+p.expr(base), in.Pos(), ok, fmt.Sprintf("index %d of %s is guarded by a length fact", max64(k, 0), p.expr(base)), fmt.Sprintf("%s is indexed/sliced at %d without a dominating length check (%s): a truncated or garbage file panics instead of being ignored", p.expr(base), max64(k, 0), factsStr(facts)))
 		}
 	}
-	r.Floor("constant index expressions in loadFailFile", ni, 4)
+	r.Floor("constant index expressions in loadFailFile", ni, 3)
 	// no panic / assert
 	bad := 0
 	for f := range p.closureOf([]*ssa.Function{fn}) {
